@@ -241,6 +241,26 @@ int reproc_start(reproc_t *process,
   }
 
 finish:
+#ifndef _WIN32
+  if (r == 0) {
+    // In the forked child, file descriptors 0-2 are the standard streams that
+    // `process_start` has just set up. A child handle that itself carries one
+    // of these numbers (because the parent had closed that standard stream
+    // before the handle was created) must not be closed below.
+    if (child.in >= 0 && child.in <= 2) {
+      child.in = HANDLE_INVALID;
+    }
+
+    if (child.out >= 0 && child.out <= 2) {
+      child.out = HANDLE_INVALID;
+    }
+
+    if (child.err >= 0 && child.err <= 2) {
+      child.err = HANDLE_INVALID;
+    }
+  }
+#endif
+
   // Either an error has ocurred or the child pipe endpoints have been copied to
   // the stdin/stdout/stderr streams of the child process. Either way, they can
   // be safely closed.
